@@ -68,6 +68,8 @@ pub struct MNode {
     pub value_free: bool,
     /// EntRef whose entity is undeclared in its document
     pub undeclared: bool,
+    /// Element: namespace prefix as written
+    pub prefix: Option<String>,
 }
 
 #[derive(Clone, Debug)]
@@ -77,6 +79,8 @@ pub struct MDoc {
     pub expanded: bool,
     pub xml_decl: Option<String>,
     pub twin_of: Option<usize>,
+    /// DTD attribute defaults: (element name as declared, attribute name, value)
+    pub defaults: Vec<(String, String, String)>,
 }
 
 #[derive(Clone, Debug, PartialEq)]
@@ -237,6 +241,7 @@ impl Model {
             dead: false,
             value_free: false,
             undeclared: false,
+            prefix: None,
         });
         self.nodes.len() - 1
     }
@@ -493,6 +498,30 @@ impl Model {
         self.nodes[self.docs[doc].root].children.iter().any(|c| self.nodes[*c].kind == Kind::Element)
     }
 
+    /// attributes an element has only through the DTD (declared default, not specified on the element)
+    pub fn default_attrs(&self, m: Mid) -> Vec<(String, String)> {
+        let n = &self.nodes[m];
+        if n.kind != Kind::Element {
+            return vec![];
+        }
+        let d = &self.docs[n.doc];
+        if d.defaults.is_empty() || !self.nodes[d.root].children.iter().any(|c| self.nodes[*c].kind == Kind::DocType) {
+            return vec![];
+        }
+        let qname = match &n.prefix {
+            Some(p) => format!("{}:{}", p, local_of(&n.name)),
+            None => local_of(&n.name).to_string(),
+        };
+        let mut out: Vec<(String, String)> = vec![];
+        for (el, att, val) in &d.defaults {
+            if *el == qname && self.find_attr(m, att).is_none() && !out.iter().any(|(k, _)| k == att) {
+                out.push((att.clone(), norm_attr_ws(val)));
+            }
+        }
+        out.sort();
+        out
+    }
+
     /// alive, non-dead nodes
     pub fn alive(&self) -> Vec<Mid> {
         (0..self.nodes.len()).filter(|m| !self.nodes[*m].dead).collect()
@@ -672,6 +701,7 @@ impl Model {
                     parent,
                     children: vec![],
                     attrs: vec![],
+                    defaults: vec![],
                     attached: self.is_attached(m),
                     value_free: run.iter().any(|r| self.nodes[*r].value_free || self.nodes[*r].undeclared),
                 };
@@ -686,6 +716,7 @@ impl Model {
                 parent,
                 children: self.view_heads(m).iter().filter_map(|c| self.key(*c)).collect(),
                 attrs,
+                defaults: self.default_attrs(m),
                 attached: self.is_attached(m),
                 value_free: n.value_free || self.subtree_value_free(m),
             };
@@ -1034,6 +1065,11 @@ impl Model {
                 Some(MSlot::Map(e)) => {
                     if self.find_attr(*e, name).is_some() {
                         Plan::ok()
+                    } else if self.default_attrs(*e).iter().any(|(k, _)| k == name) {
+                        // a defaulted attribute: "removed" and immediately there again
+                        let mut p = Plan::either(vec![ErrClass::NotFound], "remove_named_item of a defaulted attribute");
+                        p.no_effect = true;
+                        p
                     } else {
                         Plan::fail(vec![ErrClass::NotFound])
                     }
@@ -1346,6 +1382,9 @@ impl Model {
         };
         let m = self.add(kind, &name, &data, doc);
         self.bind(m, key.id);
+        if let Some(o) = &o {
+            self.nodes[m].prefix = o.prefix.clone();
+        }
         if kind == Kind::EntRef {
             if name.starts_with("&#") {
                 self.nodes[m].kind = Kind::CharRef;
